@@ -12,6 +12,7 @@ CONSTANTS
   ByzVotes = "support"
   Loss = "none"
   Serve = "any"
+  Equiv = TRUE
 INVARIANTS TypeOK VotesOnlyFullyValid PersistOnlyApplicable NoWedge
 VIEW View
 CHECK_DEADLOCK FALSE
